@@ -37,9 +37,13 @@ class StmtMixin:
     def injection_point(self, st, fr, phase='before'):
         ex = self.ex
         cfg = ex.inject
-        if cfg is None or ex.injected >= cfg.budget:
+        if cfg is None:
             return
         if isinstance(st, (ast.FunctionDef, ast.Pass)):
+            return
+        if cfg.at_point is not None and phase == 'before':
+            cfg.at_point(self, st, fr)
+        if ex.injected >= cfg.budget or not cfg.kinds:
             return
         if cfg.region is not None and not cfg.region(self, st, fr):
             return
